@@ -166,8 +166,8 @@ CHECKS = {
         "streams": ["route", "escape"],
         "partial": "",
         "assumptions": [
-            "route_match_spec assumes CapturesInRange (variable ranges lie inside their template); the parser establishes it, "
-            "the correspondence validates it (a slice out of range would be a panic result)",
+            "route_match_spec takes CapturesInRange (variable ranges lie inside their template) as a hypothesis; it is proved of every table "
+            "built by insert from parsed templates (built_tables_capture_in_range, route_match_spec_built)",
             "net/url parsing of the request target is an input of the model (URL.Path / EscapedPath as Go computed them)",
         ],
     },
